@@ -147,6 +147,10 @@ def expand_weighted_sums(term: P, consts) -> P:
         e = explicit(a[2][1], a[2][2]) or explicit(a[2][2], a[2][1])
         if e is not None:
             mapping[a] = e
+    # scalar integer constants of the module (a named radix) are the numbers they stand for
+    for a in find_atoms(term, lambda a: a[0] == "name" and isinstance(consts.get(a[1].split(".")[-1]), int)
+                        and not isinstance(consts.get(a[1].split(".")[-1]), bool)):
+        mapping[a] = P.const(consts[a[1].split(".")[-1]])
     return term.subs(mapping) if mapping else term
 
 
@@ -512,8 +516,14 @@ def r11_6(chk, so):
     cv = cr.ev("Crystal.cartesian_symmetry_operations")
     chk.saw(CR, "Crystal.cartesian_symmetry_operations")
     app = [e for e in cv.events if e.kind == "call" and e.target is not None and e.target.key().endswith(".append")]
-    chk.need(len(app) == 1, "cartesian_symmetry_operations: append not found")
-    it = seq_items(app[0].extra["args"][0])
+    elt = app[0].extra["args"][0] if len(app) == 1 else None
+    if not app and cv.returns:
+        # the same list as a comprehension: [(rotation, translation) for symop in ...]
+        ca = cv.returns[-1].value.as_atom()
+        if ca and ca[0] == "comp" and ca[1] == "ListComp" and len(ca) == 4 and len(ca[3]) == 1 and not ca[3][0][2]:
+            elt = ca[2]
+    chk.need(elt is not None, "cartesian_symmetry_operations: append not found")
+    it = seq_items(elt)
     chk.need(it is not None and len(it) == 2, "cartesian_symmetry_operations: (rotation, translation) tuple not found")
     op = None
     for a in find_atoms(it[0], lambda a: a[0] == "attr" and a[2] == "rotation"):
@@ -681,8 +691,34 @@ def r11_7(chk, so):
             syms = string_value(e.value)
     fn = getattr(ev, "fn", None) or so.func("encode_symm_str")        # the evaluated tree (helpers new to the rule set expanded)
     lits = {n.value for n in ast.walk(fn) if isinstance(n, ast.Constant) and isinstance(n.value, str) and len(n.value) <= 3}
+    # the letter appended for a non-zero rotation[i][j] is "xyz"[j]: the assignment guarded by that entry adds exactly that letter at top level
+    rot0 = ev.param_names[0]
+    letters = {}
+    for e in ev.events:
+        if e.kind != "assign" or e.value is None or not e.guards:
+            continue
+        c, pol = e.guards[-1]
+        ca = c.as_atom()
+        if not (ca and ca[0] in ("eq", "ne") and pol == (ca[0] == "ne")):
+            continue
+        ent = [a for a in find_atoms(c, lambda a: a[0] == "sub" and a[2] and a[2][0].const_value() is not None and a[1].as_atom()
+                                     and a[1].as_atom()[0] == "sub" and a[1].as_atom()[1].key() == rot0)]
+        ent += [a for a in find_atoms(c, lambda a: a[0] == "sub" and len(a[2]) == 2 and a[1].key() == rot0 and all(x.const_value() is not None for x in a[2]))]
+        if len(ent) != 1:
+            continue
+        a = ent[0]
+        ij = (int(a[1].as_atom()[2][0].const_value()), int(a[2][0].const_value())) if len(a[2]) == 1 else tuple(int(x.const_value()) for x in a[2])
+        tops = list(e.value.atoms())
+        va = e.value.as_atom()
+        if va and va[0] == "concat":
+            tops = [x.as_atom() for x in va[1] if x.as_atom()]
+        top = {x[1] for x in tops if x[0] == "str" and len(x[1]) == 1 and x[1] in "xyzXYZabc"}
+        if top:
+            letters[ij] = top
+    okletters = len(letters) == 9 and all(v == {"xyz"[j]} for (i, j), v in letters.items())
     chk.ob("R11.7", SO, "encode_symm_str", "axis symbols are 'xyz' in column order and signs are '+'/'-'",
-           syms == "xyz" and {"+", "-", ","} <= lits, found=f"{syms} {sorted(lits)}")
+           (okletters or (syms == "xyz" and not letters)) and {"+", "-", ","} <= lits,
+           found=f"{syms} {sorted(lits)} letters per entry {sorted((k, sorted(v)) for k, v in letters.items())[:4]}")
     # component i of the string is row i of the rotation: every rotation entry consulted while building component i has row index i
     rot = ev.param_names[0]
     roots = {rot, f"numpy.asarray({rot})", f"numpy.array({rot})"}
